@@ -1090,6 +1090,31 @@ def quic_cid_authentication():
                 a.victim.drive_to_end(max_timers=3)
                 out.append(("client/%s%s/v%d" % (case, "+burst" if burst else "", version), a.victim.handshake_completed,
                             a.victim.terminated.error_code if a.victim.terminated else None))
+    # an on-path box injects an Initial packet (public keys) that names ANOTHER source connection ID and wins the
+    # race against the server's genuine first flight: the client adopts that ID for its packets; the genuine
+    # server's initial_source_connection_id cannot match what the client adopted (RFC 9000 7.3)
+    from vlib import refquic as _rq
+
+    for version in (1, 2):
+        for burst in (False, True):
+            for frames in ([{"t": "PING"}], [{"t": "ACK", "ranges": [(0, 0)]}]):
+                a = Q.QuicServerAdversary(cfg={"version": VER[version]})
+                other = bytes([0xA7, 0x7A] * 4)
+                forged = _rq.build_long(a.version, "initial", a.dcid, other, 7, 2,
+                                        _rq.enc_frames(frames) + bytes(1100), a.keys["initial"])
+                a.victim.hold = burst
+                a.victim.feed(forged)
+                for lab in ("SH", "EE", "CERT", "CV", "FIN"):
+                    if a.victim.closing:
+                        break
+                    raw = a.make(lab)
+                    a.send_tls(a.EPOCH_OF[lab], raw, separate=burst)
+                    a.accepted(raw)
+                a.victim.hold = False
+                a.victim.pump()
+                a.victim.drive_to_end(max_timers=3)
+                out.append(("client/injected_initial_names_other_scid_%s%s/v%d" % (frames[0]["t"].lower(), "+burst" if burst else "", version),
+                            a.victim.handshake_completed, a.victim.terminated.error_code if a.victim.terminated else None))
     client_cases = {
         "valid_control": lambda a: a.tp,
         "iscid_mismatch": lambda a: Q.tp_replace(a.tp, Q.TP_ISCID, bytes(8)),
